@@ -569,7 +569,9 @@ func c09LadderJob() Job {
 			}
 		}
 		// lines that begin or end in white space, or consist of it (the bytes are the caller's, all of them)
-		edged := []string{" lead", "trail ", "  both  ", "\ttab\t", "TOPIC #c : ", "PRIVMSG #c :x  ", "PRIVMSG #c : indented", " ", "\t", "\u00a0nbsp\u00a0", "\u0085nel\u0085", "\v\f", "x\x00"}
+		edged := []string{" lead", "trail ", "  both  ", "\ttab\t", "TOPIC #c : ", "PRIVMSG #c :x  ", "PRIVMSG #c : indented", " ", "\t", "\u00a0nbsp\u00a0", "\u0085nel\u0085", "\v\f", "x\x00",
+			// bytes that are not UTF-8 (Latin-1 text, a truncated sequence, raw high bytes), and the empty line
+			"caf\xe9 au lait", "\xff\xfe", "\xe2\x82", "\x80", "", "after the empty line"}
 		for _, l := range edged {
 			e.Case("edged " + Q(l))
 		}
@@ -642,7 +644,7 @@ func init() {
 	}
 	Register(&Prop{
 		ID:   "C09",
-		Rule: "2-3 concurrent user senders x 1-3 lines (alternating Raw / Privmsg), optionally a foreground handler answering 1-2 incoming events with 1-2 lines, server reading at once or through a 64-byte pipe drained line by line by a server task, queue capacity 32 / 2 / 1, senders started after or during registration; 2-4 concurrent senders of messages that SplitLen = 60 splits into 3-4 lines each (Privmsg, Notice, Ctcp, CtcpReply to different targets, mixed or all senders using the same method after a warm-up message; expected lines = what the same calls produce alone); one sender with Raw lines of every length 1..1300 and around 2048 / 4096 / 8192 bytes compared byte for byte, plus lines that begin / end in or consist of white space; a server ERROR line that is not followed by a hang-up; two senders with one message each under statement-granularity interleaving of package client (seven method pairs, K<=2, no state cache); small harnesses are explored without any deviation bound (state cache), the rest within K<=2-3; distinct = distinct wire transcripts per scenario",
+		Rule: "2-3 concurrent user senders x 1-3 lines (alternating Raw / Privmsg), optionally a foreground handler answering 1-2 incoming events with 1-2 lines, server reading at once or through a 64-byte pipe drained line by line by a server task, queue capacity 32 / 2 / 1, senders started after or during registration; 2-4 concurrent senders of messages that SplitLen = 60 splits into 3-4 lines each (Privmsg, Notice, Ctcp, CtcpReply to different targets, mixed or all senders using the same method after a warm-up message; expected lines = what the same calls produce alone); one sender with Raw lines of every length 1..1300 and around 2048 / 4096 / 8192 bytes compared byte for byte, plus lines that begin / end in or consist of white space, lines with bytes that are not UTF-8, and the empty line; a server ERROR line that is not followed by a hang-up; two senders with one message each under statement-granularity interleaving of package client (seven method pairs, K<=2, no state cache); small harnesses are explored without any deviation bound (state cache), the rest within K<=2-3; distinct = distinct wire transcripts per scenario",
 		Assumptions: []string{
 			"interleavings at synchronisation/channel/socket granularity (DESIGN.md 3.8)",
 			"unbounded mode relies on the happens-before state cache; cache-on/off agreement is cross-checked at a small bound",
